@@ -45,6 +45,12 @@ class AbstractDenseTimeOnlineInterpreter(AbstractOnlineInterpreter, DenseTimeInt
 
         return rob
 
+    def reset(self):
+        # the dense-time operations keep their whole state in fields initialised by
+        # their constructors (their reset() methods are empty): build them anew
+        self.set_ast(self.ast)
+        return
+
     def update_final(self, dataset):
         # check ast exists
         self.exist_ast()
